@@ -67,11 +67,12 @@ CHECKS["C05"] = dict(
          "(Sweep) enumeration of IPv4: quick = every block boundary +-300 and a stride of 4099; thorough = all 2^32 addresses in both byte forms (exhaustive for that sub-domain). "
          "(TCP, UDP) generated SOCKS destinations through the default dialer/validator: IPv4/IPv6/mapped literals, empty and IP-literal domains (incl. zoned link-local), "
          "hostnames answered by an in-process DNS with 0..4 mixed answers, non-local private/CGNAT/multicast literals; UDP: the forbidden datagram at position 1..7 of a live association. "
+         "(Shared) one packet handler serving 2..4 UDP sockets at once, clients on even sockets flooding an allowed destination and on odd sockets a refused one (same port): nothing may reach the refused one. "
          "Sinks are bound on every local forbidden address; only an observed arrival is a violation; the local allowed address 192.0.2.2 is the positive control. "
          "Non-trivial = address within 3 of a block boundary or in mapped/16-byte form (Func); must-reject or boundary address (Sweep, distinct by construction); "
          "mapped/zoned/IP-literal-domain/empty/multi-answer destination or forbidden datagram at position >=2 (TCP/UDP).",
     assumptions=["non-local forbidden destinations have no sink: judged by reported status only", "address classes available on this host are detected at run time"],
-    units=[unit("props", ["Func", "TCP", "UDP"], "C05"), unit("props", ["Sweep"], "C05", shards=(4, 16), timeout=(240, 3000))],
+    units=[unit("props", ["Func", "TCP", "UDP", "Shared"], "C05"), unit("props", ["Sweep"], "C05", shards=(4, 16), timeout=(240, 3000))],
 )
 
 CHECKS["C06"] = dict(
@@ -240,5 +241,5 @@ CHECKS["C19"] = dict(
          "(Listeners, SharedDelivery) the concurrent listen/close plans of C13 and the delivery state machine of C12; (Collectors) C17's workers x scrapers workload; (TCPService) C15's concurrent connection mixes. "
          "Every workload counts as non-trivial; distinct = canonical case JSON.",
     assumptions=["the race detector only sees interleavings that occur: dynamic, not exhaustive"],
-    units=[unit("props-race", ["KeyList", "ReplayCache", "NAT", "Listeners", "SharedDelivery", "Collectors", "TCPService"], "C19", crash_is_violation=True, wedge_is_violation=True, timeout=(400, 2400))],
+    units=[unit("props-race", ["KeyList", "ReplayCache", "NAT", "Listeners", "SharedDelivery", "Collectors", "TCPService", "PacketService"], "C19", crash_is_violation=True, wedge_is_violation=True, timeout=(400, 2400))],
 )
